@@ -11,6 +11,7 @@ import Lattigo.Model.KeySwitch
         seed-regenerated stream A2;  kind gen|relin|gal
   gp|gpl|gph|gphl|apply|relin|aut|auth|autl|autlmd|applyup|applydown  N Q P lq lp w isNTT galEl nbPi shape evk ct   → polys
         (for applyup/applydown the galEl slot carries gap = N/n)
+  keymeta type form w lq lp deg nI nJ galEl nthRoot seed    → the record of the derived key (= the original's)
   A list of polynomials is `rows;rows;…` joined by `/`.
 -/
 namespace Driver.C04
@@ -157,10 +158,21 @@ def handleKs (op : String) (toks : List String) : Option String := do
     | _, _ => none
   | _ => none
 
+def handleKeyMeta (toks : List String) : Option String := do
+  match toks with
+  | [_typ, _form, w, lq, lp, deg, nI, nJ, galEl, nthRoot, seed] =>
+    let m : KeyMeta := {
+      w := ← w.toNat?, lq := ← lq.toNat?, lp := ← lp.toInt?, deg := ← deg.toNat?, nI := ← nI.toNat?,
+      nJ := ← parseVec? nJ, galEl := ← galEl.toNat?, nthRoot := ← nthRoot.toNat?, seed := ← parseHex? seed }
+    let d := m.derived
+    some (s!"{d.w} {d.lq} {d.lp} {d.deg} {d.nI} {showVec d.nJ} {d.galEl} {d.nthRoot} {showHex d.seed}")
+  | _ => none
+
 def handle (toks : List String) : String :=
   let r := match toks with
     | "dims" :: rest => handleDims rest
     | "evk" :: rest => handleEvk rest
+    | "keymeta" :: rest => handleKeyMeta rest
     | op :: rest => handleKs op rest
     | _ => none
   r.getD badOp
